@@ -200,6 +200,15 @@ Definition judge_c06 (g : cfg) (u : g06) (o : obs) : list N * g06 :=
       go [] l
     | _ => []
     end in
+  (* (7) persistence is what the CONNECT / CONNACK / set_offline_publish said (ghost), not what an earlier connection or an
+     option left behind: the object's own flag agrees with the ghost, and the close of a session that is not persistent
+     leaves nothing stored *)
+  let v7 :=
+    if negb (Bool.eqb (c_need_store post) pers1) then [31; b2n (c_need_store post); b2n pers1]
+    else match ob_op o with
+         | OClosed => if negb (g6_pers u) && negb (is_nil (store_ids post)) then [30] else []
+         | _ => []
+         end in
   (match v0, v1, v2, v3, v4, v5 with
    | _ :: _, _, _, _, _, _ => v0
    | [], _ :: _, _, _, _, _ => v1
@@ -207,7 +216,7 @@ Definition judge_c06 (g : cfg) (u : g06) (o : obs) : list N * g06 :=
    | [], [], [], _ :: _, _, _ => v3
    | [], [], [], [], _ :: _, _ => v4
    | [], [], [], [], [], _ :: _ => v5
-   | [], [], [], [], [], [] => v6
+   | [], [], [], [], [], [] => match v6 with _ :: _ => v6 | [] => v7 end
    end, u').
 
 Definition mon_c06 (cs : list N) : list N :=
